@@ -34,6 +34,20 @@ var $flatten64 = x => {
     return x.$high * 4294967296 + x.$low;
 };
 
+// Converts a 64-bit integer to a number that $fround rounds to the float32
+// nearest to the integer. The sum in $flatten64 is rounded to 53 bits, and a
+// second rounding to 24 bits may then go the other way. For values that need
+// more than 53 bits, the bits that don't fit are folded into the lowest bit
+// that does (rounding to odd), which keeps the sum exact and on the same side
+// of every float32 rounding boundary.
+var $flatten64ToFloat32 = x => {
+    var high = x.$high, low = x.$low;
+    if ((high >= 2097152 || high < -2097152) && (low & 0x7FF) !== 0) {
+        low = ((low & ~0x7FF) | 0x800) >>> 0;
+    }
+    return $fround(high * 4294967296 + low);
+};
+
 var $shiftLeft64 = (x, y) => {
     if (y === 0) {
         return x;
